@@ -3641,6 +3641,12 @@ class ControlConnection(object):
         Replace existing connection (if there is one) and close it.
         """
         with self._lock:
+            if self._is_shutdown:
+                # shutdown() has already run and will not see this connection
+                log.debug("[control connection] Closing new connection %r, control connection is shut down", conn)
+                if conn:
+                    conn.close()
+                return
             old = self._connection
             self._connection = conn
 
